@@ -181,9 +181,15 @@ fn strip_comments(line: &str) -> String {
     let mut index = 0;
     let mut has_comment = false;
 
+    // Between double quotes, parentheses, brackets and comment
+    // characters are ordinary characters.
+    let mut in_quotes = false;
+
     let chrs = str_to_chars!(line);
     for (i, ch) in chrs.iter().enumerate() {
-        if *ch == '(' { round_depth += 1; }
+        if *ch == '"' { in_quotes = !in_quotes; }
+        else if in_quotes { }
+        else if *ch == '(' { round_depth += 1; }
         else if *ch == '[' { square_depth += 1; }
         else if *ch == ')' { round_depth -= 1; }
         else if *ch == ']' { square_depth -= 1; }
@@ -242,11 +248,12 @@ fn separate_rules(text: &str) -> Result<Vec<String>, String> {
             rules.push(rule_str);
             rule_str = "".to_string();
         }
+        else if ch == '"' { num_quotes += 1; }
+        else if num_quotes % 2 == 1 { }  // between double quotes
         else if ch == '(' { round_depth += 1; }
         else if ch == '[' { square_depth += 1; }
         else if ch == ')' { round_depth -= 1; }
         else if ch == ']' { square_depth -= 1; }
-        else if ch == '"' { num_quotes += 1; }
     } // for
 
     // Check for unmatched brackets here.
